@@ -1,5 +1,6 @@
 """C15 - key-management histories keep a key self-consistent (E2: explicit-state search, invariant in every state)."""
 from mc.core import Res
+from mc import adapt as A
 from mc import keys as K
 from mc import keyhist as H
 from refpgp import keys as rkeys, sig as rsig, tpk, wire
@@ -95,7 +96,7 @@ def check_model(w, view, probs, who, key=None):
     except Exception as e:
         probs.append(('revocation-report', '%s: revocation_signatures raised %r' % (who, e)))
     # effective preferences = those of (one of) the most recent self-certification(s), for non-revoked identities
-    for u in key._uids:
+    for u in A.identities(key):
         name = 'IMG' if u.is_ua else ('A' if u.userid == H.UID_A else 'B')
         if name not in m.uids or m.uids[name]['revoked']:
             continue
